@@ -187,6 +187,23 @@ def _suff():
                         "the 329-365 length rule and the validity of generated placements")
 
 
+def _split():
+    return runner.PureSpec(
+        prop="C13", module="Split", trace_module="SplitTrace", driver="drivers.split",
+        cfg={"quick": "Split_quick.cfg", "thorough": "Split_thorough.cfg"}, sample={"quick": 2500, "thorough": None}, variants=lambda tier, r, cin: ["-"],
+        spec_files=["Split.tla", "SplitDefs.tla", "SplitTrace.tla", "Cal.tla"],
+        always=lambda b: 'kind |-> "select"' in b,
+        rule="TLC enumerates all 16 allow-flag vectors x season support {0,29,30,200 days} x weekend support {0,7,8,60} (x gaussian reduction), "
+             "all 48 split layouts x 3 season maps x 3 weekday maps x every month of a leap and a non-leap year, and five selection datasets; candidate "
+             "cases call the real DailyModel._combinations on a meter frame with that support, routing cases predict constructed split documents on "
+             "every day of the month, selection cases are real default-profile fits; non-trivial = more than one candidate / component",
+        assumptions=["the candidate generator is reached through DailyModel._combinations() on a hand-built df_meter (the fit would take 10 s per support class)",
+                     "with gaussian reduction on, only the clauses of the statement are demanded (which splits the ellipsoid test removes is data dependent)",
+                     "selection: rank of _combination_selection_criteria over model.combinations, ties share a rank"],
+        invariants_note="MC config checks the I-layer theorems: generator = closed form (48 candidates), every kept candidate is an exact cover, the unsplit "
+                        "model survives trimming, no kept candidate uses a cleared flag or unsupported data; every date has exactly one route under every layout and map")
+
+
 class C07Entry:
     """C07 = RowFrame (row-level masking, daily and billing) + the aggregated-column clauses of Agg (billing aggregations)."""
     OWN_AGG = {"ObservedIsSumOfDailyRows", "PredictedIsSumOfDailyRows", "SavingsFromAggregatedColumnsEqualRowwiseSavings", "ObservedColumnKept"}
@@ -244,7 +261,7 @@ class LifeEntry:
         return lifeprops.selftest(self.prop)
 
 
-_REG = {"C20": lambda: PureEntry(_window()), "C07": lambda: C07Entry(), "C19": lambda: PureEntry(_agg()), "C06": lambda: C06Entry(), "C18": lambda: PureEntry(_seg()), "C14": lambda: PureEntry(_settings()), "C10": lambda: PureEntry(_suff())}
+_REG = {"C20": lambda: PureEntry(_window()), "C07": lambda: C07Entry(), "C19": lambda: PureEntry(_agg()), "C06": lambda: C06Entry(), "C18": lambda: PureEntry(_seg()), "C14": lambda: PureEntry(_settings()), "C10": lambda: PureEntry(_suff()), "C13": lambda: PureEntry(_split())}
 for _p in ("C01", "C02", "C03", "C04", "C05"):
     _REG[_p] = (lambda p: (lambda: LifeEntry(p)))(_p)
 
